@@ -186,7 +186,7 @@ theorem TexIter.Inv.advance {it : TexIter} (v : it.Inv) :
     · rw [if_neg hn]
       have hlen := v.len_lt
       have hmod2 : (it.idx + 1) % U32 = it.idx + 1 := Nat.mod_eq_of_lt (by omega)
-      simp only [hmod2]
+      rw [hmod2]
       refine ⟨⟨v.wf, v.off0, v.mips_pos, v.mips_lt, v.len_lt, v.fits, v.tex, v.short, ?_⟩, ?_, rfl, rfl⟩
       · show (it.idx + 1 < it.len ∧ 0 < it.first.mips) ∨ (it.idx + 1 = it.len ∧ 0 = 0)
         have := v.mips_pos
@@ -222,7 +222,7 @@ theorem TexIter.Inv.rewind {it : TexIter} (v : it.Inv) :
         have : it.first.mips + U8 - 1 = (it.first.mips - 1) + U8 := by omega
         rw [this, Nat.add_mod_right]
         exact Nat.mod_eq_of_lt (by unfold U8; omega)
-      simp only [hmod]
+      rw [hmod]
       have hidx : it.idx ≤ it.len := by
         cases v.cursor with
         | inl h => omega
@@ -241,7 +241,7 @@ theorem TexIter.Inv.rewind {it : TexIter} (v : it.Inv) :
       have : it.level = 0 := by omega
       simp [*]
 
-theorem texElapsedLoop_eq (t : Texture) (v : t.Valid) (h0 : t.offsetIndex = 0) :
+theorem texElapsedLoop_eq (t : Texture) (v : t.Valid) (_h0 : t.offsetIndex = 0) :
     ∀ (n level acc : Nat), level + n ≤ t.mips →
       acc + texIdeal t.px t.w t.h level n < U64 →
       texElapsedLoop t n level acc = some (acc + texIdeal t.px t.w t.h level n) := by
@@ -345,5 +345,385 @@ theorem TexIter.Inv.skipMipmapsP {it : TexIter} (v : it.Inv) :
   · rw [if_neg h]
     refine ⟨it, 0, rfl, v, rfl, rfl, rfl, ?_⟩
     rw [if_neg h]; exact ⟨rfl, rfl⟩
+
+
+/-! ### the volume iterator -/
+
+theorem volIdeal_split (px : PixelInfo) (w h d : Nat) : ∀ (a level b : Nat),
+    volIdeal px w h d level (a + b) = volIdeal px w h d level a + volIdeal px w h d (level + a) b := by
+  intro a
+  induction a with
+  | zero => intro level b; simp [volIdeal]
+  | succ a ih =>
+    intro level b
+    have : a + 1 + b = (a + b) + 1 := by omega
+    rw [this]
+    simp only [volIdeal]
+    rw [ih (level + 1) b]
+    have : level + 1 + a = level + (a + 1) := by omega
+    rw [this]; omega
+
+theorem volIdeal_prefix_le (px : PixelInfo) (w h d level a b : Nat) (hab : a ≤ b) :
+    volIdeal px w h d level a ≤ volIdeal px w h d level b := by
+  have : b = a + (b - a) := by omega
+  rw [this, volIdeal_split]; omega
+
+theorem specVol_length (px : PixelInfo) (w h d : Nat) : ∀ (n level off : Nat),
+    (specVol px w h d level n off).length = n := by
+  intro n
+  induction n with
+  | zero => intro _ _; rfl
+  | succ n ih => intro level off; simp [specVol, ih]
+
+theorem specVol_getElem_eq (px : PixelInfo) (w h d : Nat) : ∀ (n level off j : Nat), j < n →
+    (specVol px w h d level n off)[j]? =
+      some ⟨mipSize w (level + j), mipSize h (level + j), mipSize d (level + j),
+            off + volIdeal px w h d level j,
+            px.surfIdeal (mipSize w (level + j)) (mipSize h (level + j))⟩ := by
+  intro n
+  induction n with
+  | zero => intro level off j hj; omega
+  | succ n ih =>
+    intro level off j hj
+    cases j with
+    | zero => simp [specVol, volIdeal]
+    | succ j =>
+      simp only [specVol, List.getElem?_cons_succ]
+      rw [ih (level + 1) _ j (by omega)]
+      simp only [volIdeal]
+      have e : level + 1 + j = level + (j + 1) := by omega
+      rw [e, Nat.add_assoc]
+
+theorem specVol_drop (px : PixelInfo) (w h d : Nat) : ∀ (k n level off : Nat), k ≤ n →
+    (specVol px w h d level n off).drop k =
+      specVol px w h d (level + k) (n - k) (off + volIdeal px w h d level k) := by
+  intro k
+  induction k with
+  | zero => intro n level off _; simp [volIdeal]
+  | succ k ih =>
+    intro n level off hk
+    cases n with
+    | zero => omega
+    | succ n =>
+      simp only [specVol, List.drop_succ_cons]
+      rw [ih n (level + 1) _ (by omega)]
+      simp only [volIdeal]
+      have e1 : level + 1 + k = level + (k + 1) := by omega
+      have e2 : n + 1 - (k + 1) = n - k := by omega
+      rw [e1, e2, Nat.add_assoc]
+
+theorem foldl_specVol (px : PixelInfo) (w h d : Nat) : ∀ (n level off acc : Nat),
+    acc + volIdeal px w h d level n < U64 →
+    (specVol px w h d level n off).foldl (fun a v => wAdd a v.dataLen) acc
+      = acc + volIdeal px w h d level n := by
+  intro n
+  induction n with
+  | zero => intro level off acc _; simp [specVol, volIdeal]
+  | succ n ih =>
+    intro level off acc hlt
+    simp only [volIdeal] at hlt
+    simp only [specVol, List.foldl_cons, volIdeal]
+    have hm : px.surfIdeal (mipSize w level) (mipSize h level) * mipSize d level < U64 := by omega
+    have hd : (⟨mipSize w level, mipSize h level, mipSize d level, off,
+        px.surfIdeal (mipSize w level) (mipSize h level)⟩ : VolumeDesc).dataLen =
+        px.surfIdeal (mipSize w level) (mipSize h level) * mipSize d level := by
+      simp only [VolumeDesc.dataLen]; exact wMul_eq hm
+    have ha : acc + px.surfIdeal (mipSize w level) (mipSize h level) * mipSize d level < U64 := by
+      omega
+    rw [hd, wAdd_eq ha]
+    have hi := ih (level + 1)
+      (off + px.surfIdeal (mipSize w level) (mipSize h level) * mipSize d level)
+      (acc + px.surfIdeal (mipSize w level) (mipSize h level) * mipSize d level) (by omega)
+    rw [hi]
+    omega
+
+/-- number of depth slices in levels `level .. level+n-1` -/
+def depthSum (d : Nat) : (level n : Nat) → Nat
+  | _, 0 => 0
+  | level, n + 1 => mipSize d level + depthSum d (level + 1) n
+
+theorem depthSum_split (d : Nat) : ∀ (a level b : Nat),
+    depthSum d level (a + b) = depthSum d level a + depthSum d (level + a) b := by
+  intro a
+  induction a with
+  | zero => intro level b; simp [depthSum]
+  | succ a ih =>
+    intro level b
+    have : a + 1 + b = (a + b) + 1 := by omega
+    rw [this]
+    simp only [depthSum]
+    rw [ih (level + 1) b]
+    have : level + 1 + a = level + (a + 1) := by omega
+    rw [this]; omega
+
+/-- the invariant of `VolumeSurfaceIterator` -/
+structure VolIter.Inv (it : VolIter) : Prop where
+  valid : it.volume.Valid
+  mips_pos : 1 ≤ it.volume.mips
+  mips_lt : it.volume.mips < 256
+  d_lt : it.volume.d < U32
+  d_pos : 0 < it.volume.d
+  cursor : (it.level < it.volume.mips ∧ it.depth < mipSize it.volume.d it.level) ∨
+           (it.level = it.volume.mips ∧ it.depth = 0)
+
+def VolIter.abs (it : VolIter) : Nat := depthSum it.volume.d 0 it.level + it.depth
+def VolIter.N (it : VolIter) : Nat := depthSum it.volume.d 0 it.volume.mips
+
+def Volume.sliceLen (v : Volume) (level : Nat) : Nat :=
+  v.px.surfIdeal (mipSize v.w level) (mipSize v.h level)
+
+def VolIter.elapsed (it : VolIter) : Nat :=
+  volIdeal it.volume.px it.volume.w it.volume.h it.volume.d 0 it.level
+    + it.depth * it.volume.sliceLen it.level
+
+theorem Volume.Valid.getP {v : Volume} (hv : v.Valid) (l : Nat) :
+    v.getP l = some (if l < v.mips then
+      some ⟨mipSize v.w l, mipSize v.h l, mipSize v.d l, volIdeal v.px v.w v.h v.d 0 l,
+            v.sliceLen l⟩ else none) := by
+  unfold Volume.getP
+  rw [hv.iterMipsP]
+  simp only [Option.map_some]
+  by_cases hl : l < v.mips
+  · rw [if_pos hl, specVol_getElem_eq _ _ _ _ _ _ _ _ hl]
+    simp [Volume.sliceLen]
+  · rw [if_neg hl]
+    congr 1
+    apply List.getElem?_eq_none
+    rw [specVol_length]; omega
+
+theorem VolIter.Inv.level_le {it : VolIter} (v : it.Inv) : it.level ≤ it.volume.mips := by
+  cases v.cursor with
+  | inl h => omega
+  | inr h => omega
+
+/-- bytes of one whole level fit (they are part of the checked total) -/
+theorem Volume.Valid.level_fits {v : Volume} (hv : v.Valid) {l : Nat} (hl : l < v.mips) :
+    volIdeal v.px v.w v.h v.d 0 l + v.sliceLen l * mipSize v.d l ≤
+      volIdeal v.px v.w v.h v.d 0 v.mips := by
+  have h1 := volIdeal_split v.px v.w v.h v.d l 0 (v.mips - l)
+  have e : l + (v.mips - l) = v.mips := by omega
+  rw [e] at h1
+  have h2 : v.mips - l = (v.mips - l - 1) + 1 := by omega
+  rw [h2] at h1
+  simp only [volIdeal, Nat.zero_add] at h1
+  unfold Volume.sliceLen
+  omega
+
+theorem VolIter.Inv.currentP {it : VolIter} (v : it.Inv) :
+    it.currentP = some (if it.level < it.volume.mips then
+      some ⟨mipSize it.volume.w it.level, mipSize it.volume.h it.level,
+            it.volume.sliceLen it.level, it.level⟩ else none) := by
+  unfold VolIter.currentP
+  rw [v.valid.getP]
+  by_cases hl : it.level < it.volume.mips
+  · rw [if_pos hl, if_pos hl]
+    have hd : it.depth < mipSize it.volume.d it.level := by
+      cases v.cursor with
+      | inl h => exact h.2
+      | inr h => omega
+    simp only [VolumeDesc.getDepthSlice, hd, if_true]
+  · rw [if_neg hl, if_neg hl]
+
+theorem depthSum_succ_right (d level a : Nat) :
+    depthSum d level (a + 1) = depthSum d level a + mipSize d (level + a) := by
+  rw [depthSum_split d a level 1]; simp [depthSum]
+
+theorem VolIter.Inv.abs_le {it : VolIter} (v : it.Inv) : it.abs ≤ it.N := by
+  unfold VolIter.abs VolIter.N
+  cases v.cursor with
+  | inl h =>
+    have h1 := depthSum_split it.volume.d (it.level + 1) 0 (it.volume.mips - (it.level + 1))
+    have e : it.level + 1 + (it.volume.mips - (it.level + 1)) = it.volume.mips := by omega
+    rw [e, depthSum_succ_right] at h1
+    simp only [Nat.zero_add] at h1
+    omega
+  | inr h => rw [h.1, h.2]; omega
+
+theorem VolIter.Inv.advanceP {it : VolIter} (v : it.Inv) :
+    ∃ it', it.advanceP = some it' ∧ it'.Inv ∧ it'.abs = min (it.abs + 1) it.N ∧
+      it'.volume = it.volume := by
+  unfold VolIter.advanceP
+  rw [v.valid.getP]
+  by_cases hl : it.level < it.volume.mips
+  · rw [if_pos hl]
+    have hd : it.depth < mipSize it.volume.d it.level := by
+      cases v.cursor with
+      | inl h => exact h.2
+      | inr h => omega
+    have hdl := mipSize_lt_U32 it.volume.d it.level v.d_lt
+    have hmod : (it.depth + 1) % U32 = it.depth + 1 := Nat.mod_eq_of_lt (by omega)
+    simp only [hmod]
+    have hN : depthSum it.volume.d 0 (it.level + 1) ≤ depthSum it.volume.d 0 it.volume.mips := by
+      have h1 := depthSum_split it.volume.d (it.level + 1) 0 (it.volume.mips - (it.level + 1))
+      have e : it.level + 1 + (it.volume.mips - (it.level + 1)) = it.volume.mips := by omega
+      rw [e] at h1; omega
+    rw [depthSum_succ_right] at hN
+    simp only [Nat.zero_add] at hN
+    by_cases hn : it.depth + 1 < mipSize it.volume.d it.level
+    · rw [if_pos hn]
+      refine ⟨_, rfl, ⟨v.valid, v.mips_pos, v.mips_lt, v.d_lt, v.d_pos, Or.inl ⟨hl, hn⟩⟩, ?_, rfl⟩
+      show depthSum it.volume.d 0 it.level + (it.depth + 1) =
+        min (depthSum it.volume.d 0 it.level + it.depth + 1) (depthSum it.volume.d 0 it.volume.mips)
+      rw [Nat.min_def]; split <;> omega
+    · rw [if_neg hn]
+      have hm := v.mips_lt
+      have hmod2 : (it.level + 1) % U8 = it.level + 1 := Nat.mod_eq_of_lt (by unfold U8; omega)
+      rw [hmod2]
+      refine ⟨_, rfl, ⟨v.valid, v.mips_pos, v.mips_lt, v.d_lt, v.d_pos, ?_⟩, ?_, rfl⟩
+      · show (it.level + 1 < it.volume.mips ∧ 0 < mipSize it.volume.d (it.level + 1)) ∨
+          (it.level + 1 = it.volume.mips ∧ 0 = 0)
+        by_cases he : it.level + 1 < it.volume.mips
+        · exact Or.inl ⟨he, mipSize_pos _ _⟩
+        · exact Or.inr ⟨by omega, rfl⟩
+      · show depthSum it.volume.d 0 (it.level + 1) + 0 =
+          min (depthSum it.volume.d 0 it.level + it.depth + 1) (depthSum it.volume.d 0 it.volume.mips)
+        rw [depthSum_succ_right, Nat.min_def]
+        simp only [Nat.zero_add]
+        split <;> omega
+  · rw [if_neg hl]
+    refine ⟨it, rfl, v, ?_, rfl⟩
+    have h1 := v.abs_le
+    have : it.level = it.volume.mips ∧ it.depth = 0 := by
+      cases v.cursor with
+      | inl h => omega
+      | inr h => exact h
+    unfold VolIter.abs VolIter.N at *
+    rw [this.1, this.2] at *
+    rw [Nat.min_def]; split <;> omega
+
+theorem VolIter.Inv.rewindP {it : VolIter} (v : it.Inv) :
+    ∃ it', it.rewindP = some it' ∧ it'.Inv ∧ it'.abs = it.abs - 1 ∧ it'.volume = it.volume := by
+  unfold VolIter.rewindP
+  by_cases hd : it.depth > 0
+  · rw [if_pos hd]
+    refine ⟨_, rfl, ⟨v.valid, v.mips_pos, v.mips_lt, v.d_lt, v.d_pos, ?_⟩, ?_, rfl⟩
+    · cases v.cursor with
+      | inl h =>
+        exact Or.inl ⟨h.1, by show it.depth - 1 < mipSize it.volume.d it.level; omega⟩
+      | inr h => omega
+    · show depthSum it.volume.d 0 it.level + (it.depth - 1) = depthSum it.volume.d 0 it.level + it.depth - 1
+      omega
+  · rw [if_neg hd]
+    by_cases hl : it.level > 0
+    · rw [if_pos hl]
+      have hle := v.level_le
+      rw [v.valid.getP, if_pos (by omega : it.level - 1 < it.volume.mips)]
+      simp only
+      have hdl := mipSize_lt_U32 it.volume.d (it.level - 1) v.d_lt
+      have hdp := mipSize_pos it.volume.d (it.level - 1)
+      have hmod : (mipSize it.volume.d (it.level - 1) + U32 - 1) % U32 =
+          mipSize it.volume.d (it.level - 1) - 1 := by
+        have : mipSize it.volume.d (it.level - 1) + U32 - 1 =
+            (mipSize it.volume.d (it.level - 1) - 1) + U32 := by omega
+        rw [this, Nat.add_mod_right]
+        exact Nat.mod_eq_of_lt (by omega)
+      rw [hmod]
+      refine ⟨_, rfl, ⟨v.valid, v.mips_pos, v.mips_lt, v.d_lt, v.d_pos, ?_⟩, ?_, rfl⟩
+      · exact Or.inl ⟨by show it.level - 1 < it.volume.mips; omega,
+          by show mipSize it.volume.d (it.level - 1) - 1 < mipSize it.volume.d (it.level - 1); omega⟩
+      · show depthSum it.volume.d 0 (it.level - 1) + (mipSize it.volume.d (it.level - 1) - 1) =
+          depthSum it.volume.d 0 it.level + it.depth - 1
+        have e : it.level = (it.level - 1) + 1 := by omega
+        have h2 := depthSum_succ_right it.volume.d 0 (it.level - 1)
+        rw [← e] at h2
+        simp only [Nat.zero_add] at h2
+        omega
+    · rw [if_neg hl]
+      refine ⟨it, rfl, v, ?_, rfl⟩
+      unfold VolIter.abs
+      have : it.level = 0 := by omega
+      have : it.depth = 0 := by omega
+      simp [*, depthSum]
+
+theorem volElapsedLoop_eq (vol : Volume) (hv : vol.Valid) :
+    ∀ (n level acc : Nat), level + n ≤ vol.mips →
+      acc + volIdeal vol.px vol.w vol.h vol.d level n < U64 →
+      volElapsedLoop vol n level acc = some (acc + volIdeal vol.px vol.w vol.h vol.d level n) := by
+  intro n
+  induction n with
+  | zero => intro level acc _ _; simp [volElapsedLoop, volIdeal]
+  | succ n ih =>
+    intro level acc hle hlt
+    simp only [volIdeal] at hlt
+    unfold volElapsedLoop
+    rw [hv.getP, if_pos (by omega : level < vol.mips)]
+    simp only [VolumeDesc.dataLen, Volume.sliceLen]
+    rw [wMul_eq (by omega), wAdd_eq (by omega), ih _ _ (by omega) (by omega)]
+    simp only [volIdeal]; congr 1; omega
+
+theorem VolIter.Inv.elapsed_le {it : VolIter} (v : it.Inv) :
+    it.elapsed ≤ volIdeal it.volume.px it.volume.w it.volume.h it.volume.d 0 it.volume.mips := by
+  unfold VolIter.elapsed
+  cases v.cursor with
+  | inl h =>
+    have h1 := v.valid.level_fits h.1
+    have h2 : it.depth * it.volume.sliceLen it.level ≤
+        it.volume.sliceLen it.level * mipSize it.volume.d it.level := by
+      rw [Nat.mul_comm]; exact Nat.mul_le_mul_left _ (by omega)
+    omega
+  | inr h => rw [h.1, h.2]; omega
+
+/-- `elapsed_bytes()` of the volume iterator is the ideal offset of the cursor. -/
+theorem VolIter.Inv.elapsedP {it : VolIter} (v : it.Inv) : it.elapsedP = some it.elapsed := by
+  unfold VolIter.elapsedP
+  have hfit := v.valid.fits
+  have hle := v.elapsed_le
+  have hpre := volIdeal_prefix_le it.volume.px it.volume.w it.volume.h it.volume.d 0 it.level
+    it.volume.mips v.level_le
+  rw [volElapsedLoop_eq it.volume v.valid _ _ _ (by have := v.level_le; omega) (by omega)]
+  simp only [Nat.zero_add]
+  rw [v.valid.getP]
+  by_cases hl : it.level < it.volume.mips
+  · rw [if_pos hl]
+    have hdp := mipSize_pos it.volume.d it.level
+    simp only [VolumeDesc.getDepthSlice, hdp, if_true]
+    unfold VolIter.elapsed at hle ⊢
+    have e : it.volume.sliceLen it.level * it.depth = it.depth * it.volume.sliceLen it.level :=
+      Nat.mul_comm _ _
+    rw [wMul_eq (by omega), wAdd_eq (by omega), e]
+  · rw [if_neg hl]
+    have : it.level = it.volume.mips ∧ it.depth = 0 := by
+      cases v.cursor with
+      | inl h => omega
+      | inr h => exact h
+    unfold VolIter.elapsed
+    rw [this.2]; simp
+
+/-- `skip_mipmaps()` on a volume: error inside a level, no-op at level 0 and at the end,
+otherwise jump to the end, returning exactly the bytes in between. -/
+theorem VolIter.Inv.skipMipmapsP {it : VolIter} (v : it.Inv) :
+    (it.depth ≠ 0 → it.skipMipmapsP = some (.error ())) ∧
+    (it.depth = 0 → ∃ it' n, it.skipMipmapsP = some (.ok (it', n)) ∧ it'.Inv ∧
+      it'.volume = it.volume ∧ it'.elapsed = it.elapsed + n ∧
+      (if it.level = 0 ∨ it.level ≥ it.volume.mips then it' = it ∧ n = 0
+       else it'.level = it.volume.mips ∧ it'.depth = 0)) := by
+  unfold VolIter.skipMipmapsP
+  constructor
+  · intro hd; rw [if_pos hd]
+  · intro hd
+    have hnd : ¬ it.depth ≠ 0 := by omega
+    rw [if_neg hnd]
+    by_cases hc : it.level = 0 ∨ it.level ≥ it.volume.mips
+    · rw [if_pos hc]
+      refine ⟨it, 0, rfl, v, rfl, rfl, ?_⟩
+      rw [if_pos hc]; exact ⟨rfl, rfl⟩
+    · rw [if_neg hc, v.valid.iterMipsP]
+      have hl : it.level < it.volume.mips := by omega
+      refine ⟨_, _, rfl, ⟨v.valid, v.mips_pos, v.mips_lt, v.d_lt, v.d_pos, Or.inr ⟨rfl, hd⟩⟩,
+        rfl, ?_, ?_⟩
+      · unfold sumVolLens
+        rw [specVol_drop _ _ _ _ _ _ _ _ (by omega)]
+        have hsplit := volIdeal_split it.volume.px it.volume.w it.volume.h it.volume.d it.level 0
+          (it.volume.mips - it.level)
+        have e : it.level + (it.volume.mips - it.level) = it.volume.mips := by omega
+        rw [e] at hsplit
+        simp only [Nat.zero_add] at hsplit ⊢
+        have hfit := v.valid.fits
+        rw [foldl_specVol _ _ _ _ _ _ _ _ (by omega)]
+        show volIdeal it.volume.px it.volume.w it.volume.h it.volume.d 0 it.volume.mips
+          + it.depth * it.volume.sliceLen it.volume.mips = it.elapsed + _
+        unfold VolIter.elapsed
+        rw [hd]; omega
+      · rw [if_neg hc]; exact ⟨rfl, hd⟩
 
 end Dds
